@@ -1092,7 +1092,9 @@ def calculate_cumulant_function(
         diag_mask[1:, 1:] = ~np.eye(N-1, dtype=bool)
 
         # Offdiagonal terms
-        cumulant_function[..., diag_mask] = decay_amplitudes[..., diag_mask]
+        # Off-diagonal elements are those of the transposed decay amplitudes (the distinction only
+        # matters for cross-correlations, where the decay amplitudes are not symmetric)
+        cumulant_function[..., diag_mask] = decay_amplitudes.swapaxes(-1, -2)[..., diag_mask]
 
         # Diagonal terms K_ii given by sum over diagonal of Gamma excluding
         # Gamma_ii. Since the Pauli basis is traceless, K_00 is zero, therefore
